@@ -135,7 +135,7 @@ def cli_case(rng, lang, fmt=None, many=False):
         flags += ['--input-format', 'POSandNERtagged']
     scores = [G.scoring(p) for p, _ in sents]
     return dict(lang=lang, sents=sents, cats=cats, roots=root_cats, opts=opts, flags=flags, lines=lines, doc=doc, scores=scores,
-                fmt=fmt or 'auto')
+                fmt=fmt or 'auto', piped=piped)
 
 
 def api_text(case):
@@ -156,6 +156,35 @@ def api_text(case):
         return to_string(res, format=case['fmt']) + '\n'
     finally:
         dlang.set_global_language_to('en')
+
+
+MODEL_FORMATS = ('auto', 'auto_extended', 'conll', 'ptb', 'deriv', 'ja')
+
+
+def model_line(case):
+    """the protocol line that makes the Lean model of the whole program (Cli.mainText: tokens from the
+    input lines, root categories from --root-cats, tagger categories parsed, parsing.run with chunking,
+    print_) produce the text"""
+    from wire import enc_str
+    o, lang = case['opts'], case['lang']
+    parts = ['cli', lang, 'ship_' + lang, 'ship_' + lang, case['fmt'], '1' if case['piped'] else '0',
+             enc_str('|'.join(str(c) for c in case['roots'])), str(o['penalty']), str(o['pruning']), str(o['nbest']), str(o['max_step']),
+             str(o['max_length']), str(o['procs']), str(len(case['lines']))] + [enc_str(l) for l in case['lines']]
+    parts += [str(len(case['cats']))] + [enc_str(str(c)) for c in case['cats']]
+    parts.append(str(len(case['sents'])))
+    for p, _ in case['sents']:
+        parts.append(str(p.n))
+        for row in p.tags:
+            parts += [str(v) for v in row]
+        for row in p.deps:
+            parts += [str(v) for v in row]
+        if p.use_beta:
+            parts.append('1')
+            for row in S.passes_table(p):
+                parts += [str(v) for v in row]
+        else:
+            parts.append('0')
+    return ' '.join(parts)
 
 
 def oracle_auto(case, text):
@@ -203,6 +232,7 @@ def cli_suite(ctx, count, formats=None):
     if not glue_checks.ensure_native(ctx):
         return
     ran = 0
+    model_cases = []
     for k in range(count):
         lang = 'ja' if k % 4 == 3 else 'en'
         import render_common
@@ -221,6 +251,9 @@ def cli_suite(ctx, count, formats=None):
             ctx.fail('the supertagger was not given the words of the input lines', desc, fingerprint=['cli-words'])
             continue
         ran += 1
+        if case['fmt'] in MODEL_FORMATS:
+            from wire import enc_str
+            model_cases.append(('cli', model_line(case), 'ok ' + enc_str(text), desc))
         try:
             want = api_text(case)
         except Exception as e:
@@ -243,3 +276,16 @@ def cli_suite(ctx, count, formats=None):
         elif 'FAILED' not in text or len(case['sents']) > 1:
             ctx.nontrivial_add(('cli', k))
     ctx.extra['cli_runs'] = ctx.extra.get('cli_runs', 0) + ran
+    # the Lean model of the whole program against the real stdout, character by character
+    if model_cases and not (ctx.lean is not None and not ctx.lean.driver_ok):
+        from driver import run_lines
+        setup = []
+        for lang in ('en', 'ja'):
+            setup.append(grammar_common.set_seen_line('ship_' + lang, sorted(grammar_common.seen_set(lang), key=lambda p: (str(p[0]), str(p[1])))))
+            setup.append(grammar_common.set_unary_line('ship_' + lang, grammar_common.unary_table(lang)))
+        outs = run_lines(setup + [c[1] for c in model_cases])[len(setup):]
+        for (op, line, impl_out, desc), m in zip(model_cases, outs):
+            ctx.traces += 1
+            if m != impl_out:
+                ctx.disagree(op, desc, m, impl_out, line=line[:3000])
+        ctx.extra['cli_model_compared'] = ctx.extra.get('cli_model_compared', 0) + len(model_cases)
